@@ -5,6 +5,7 @@ From FB.Base Require Import PyVal.
 From FB.Spec Require Import JsonSpec.
 From FB.Gen Require Import JsonUtilGen.
 Import ListNotations.
+Local Open Scope list_scope.
 
 (* ================================================================== *)
 (** * Generic list vocabulary the inline loops are rewritten into      *)
@@ -45,7 +46,7 @@ Definition allpstr (d : list (pyval * pyval)) : bool :=
 
 (* dictionary comparison as performed by is_equal, over a value relation E *)
 Definition deq (E : pyval -> pyval -> bool) (d1 d2 : list (pyval * pyval)) : bool :=
-  Nat.eqb (length d1) (length d2) &&
+  Nat.eqb (List.length d1) (List.length d2) &&
   forallb (fun kv => match assoc_get (fst kv) d2 with
                      | Some v' => E (snd kv) v'
                      | None => false
@@ -65,7 +66,7 @@ Lemma sanitize_dict_eq : forall d, sanitize (PDict d) = san_dict d [].
 Proof. reflexivity. Qed.
 
 Lemma zip_loop_all2 : forall (f : pyval -> pyval -> bool) xs ys,
-  (Nat.eqb (length xs) (length ys) &&
+  (Nat.eqb (List.length xs) (List.length ys) &&
    negb ((fix go (xs ys : list pyval) {struct xs} : bool :=
             match xs, ys with
             | e1 :: xs', e2 :: ys' => if negb (f e1 e2) then true else go xs' ys'
@@ -73,7 +74,7 @@ Lemma zip_loop_all2 : forall (f : pyval -> pyval -> bool) xs ys,
             end) xs ys))%bool = all2 f xs ys.
 Proof.
   induction xs as [|x xs IH]; destruct ys as [|y ys]; try reflexivity.
-  cbn [length Nat.eqb all2]. rewrite <- IH.
+  cbn [List.length Nat.eqb all2]. rewrite <- IH.
   destruct (f x y); cbn [negb andb]; [reflexivity | apply andb_false_r].
 Qed.
 
@@ -88,11 +89,11 @@ Proof.
   intros l v. destruct v; try reflexivity.
   - unfold seq_eqn. rewrite <- zip_loop_all2.
     cbn [is_equal class_of pyclass_eqb negb andb orb py_len py_seq].
-    destruct (Nat.eqb (length l) (length l0)); cbn [negb andb]; [|reflexivity].
+    destruct (Nat.eqb (List.length l) (List.length l0)); cbn [negb andb]; [|reflexivity].
     match goal with |- (if ?g then _ else _) = _ => destruct g end; reflexivity.
   - unfold seq_eqn. rewrite <- zip_loop_all2.
     cbn [is_equal class_of pyclass_eqb negb andb orb py_len py_seq].
-    destruct (Nat.eqb (length l) (length l0)); cbn [negb andb]; [|reflexivity].
+    destruct (Nat.eqb (List.length l) (List.length l0)); cbn [negb andb]; [|reflexivity].
     match goal with |- (if ?g then _ else _) = _ => destruct g end; reflexivity.
 Qed.
 
@@ -131,20 +132,18 @@ Proof.
   intros d v. destruct v; try reflexivity.
   unfold dict_eqn, deq. rewrite <- items_loop_forallb.
   cbn [is_equal class_of pyclass_eqb negb andb orb py_len].
-  destruct (Nat.eqb (length d) (length d0)); cbn [negb andb]; [|reflexivity].
+  destruct (Nat.eqb (List.length d) (List.length d0)); cbn [negb andb]; [|reflexivity].
   match goal with |- (if ?g then _ else _) = _ => destruct g end; reflexivity.
 Qed.
 
 Lemma py_eq_tuple_eq : forall x y, py_eq (PTuple x) (PTuple y) = all2 py_eq x y.
 Proof.
-  induction x as [|a x IH]; destruct y as [|b y]; try reflexivity.
-  cbn [all2]. rewrite <- IH. reflexivity.
+  induction x as [|a x IH]; destruct y as [|b y]; reflexivity.
 Qed.
 
 Lemma py_eq_list_eq : forall x y, py_eq (PList x) (PList y) = all2 py_eq x y.
 Proof.
-  induction x as [|a x IH]; destruct y as [|b y]; try reflexivity.
-  cbn [all2]. rewrite <- IH. reflexivity.
+  induction x as [|a x IH]; destruct y as [|b y]; reflexivity.
 Qed.
 
 Lemma py_eq_str : forall a b, py_eq (PStr a) (PStr b) = String.eqb a b.
@@ -192,7 +191,7 @@ Qed.
 Lemma str_mem_false : forall s l, str_mem s l = false <-> ~ In s l.
 Proof.
   intros s l. rewrite <- str_mem_In. destruct (str_mem s l); split; intro H;
-  try reflexivity; try discriminate; try tauto. exfalso. apply H. reflexivity.
+  try reflexivity; try discriminate; try tauto.
 Qed.
 
 Lemma str_nodup_NoDup : forall l, str_nodup l = true <-> NoDup l.
@@ -253,3 +252,640 @@ Proof.
   - intro H. right. auto.
 Qed.
 
+Lemma assoc_get_None_notin : forall s d,
+  allpstr d = true -> assoc_get (PStr s) d = None -> ~ In s (keys d).
+Proof.
+  intros s d. induction d as [|[k' v'] d IH]; cbn [assoc_get keys map In fst allpstr forallb];
+    [tauto|].
+  intros Hp. apply andb_true_iff in Hp. destruct Hp as [Hk Hp].
+  destruct k'; try discriminate. cbn [py_eq key_str].
+  destruct (String.eqb s s0) eqn:E; [discriminate|].
+  intros H [H1|H1].
+  - subst. rewrite String.eqb_refl in E. discriminate.
+  - exact (IH Hp H H1).
+Qed.
+
+Lemma assoc_get_In_nodup : forall d s v,
+  allpstr d = true -> NoDup (keys d) -> In (PStr s, v) d -> assoc_get (PStr s) d = Some v.
+Proof.
+  induction d as [|[k' v'] d IH]; intros s v Hp Hnd Hin; [destruct Hin|].
+  cbn [allpstr forallb fst] in Hp. apply andb_true_iff in Hp. destruct Hp as [Hk Hp].
+  cbn [keys map fst] in Hnd. inversion Hnd as [|? ? Hnotin Hnd']; subst.
+  destruct k'; try discriminate. cbn [key_str] in Hnotin.
+  cbn [assoc_get py_eq]. destruct Hin as [Hin|Hin].
+  - injection Hin as -> ->. rewrite String.eqb_refl. reflexivity.
+  - destruct (String.eqb s s0) eqn:E.
+    + apply String.eqb_eq in E. subst. exfalso. apply Hnotin. eapply In_keys; eauto.
+    + apply IH; assumption.
+Qed.
+
+Lemma assoc_get_notin_None : forall d s,
+  ~ In s (keys d) -> assoc_get (PStr s) d = None.
+Proof.
+  intros d s H. destruct (assoc_get (PStr s) d) eqn:E; [|reflexivity].
+  exfalso. apply H. eapply In_keys. eapply assoc_get_Some_In; eauto.
+Qed.
+
+(* ================================================================== *)
+(** * key_to_str                                                        *)
+(* ================================================================== *)
+
+Lemma key_to_str_some_iff : forall k, (exists k', key_to_str k = Some k') <-> json_key k = true.
+Proof.
+  intro k. destruct k; cbn [key_to_str json_key]; split; intro H;
+    try reflexivity; try discriminate; try (destruct H; discriminate); eauto.
+  - destruct (py_truth (PBool b)); eauto.
+  - destruct (negb (py_eq (PFloat f) (PFloat f))); eauto.
+    destruct (py_eq (PFloat f) (PFloat (FInf false))); eauto.
+    destruct (py_eq (PFloat f) (PFloat (FInf true))); eauto.
+Qed.
+
+Lemma key_to_str_pstr : forall k k', key_to_str k = Some k' -> exists s, k' = PStr s.
+Proof.
+  intros k k'. destruct k; cbn [key_to_str]; try discriminate.
+  - intro H; injection H as <-; eauto.
+  - destruct (py_truth (PBool b)); intro H; injection H as <-; eauto.
+  - cbn [py_repr]. intro H; injection H as <-; eauto.
+  - cbn [py_repr].
+    destruct (negb (py_eq (PFloat f) (PFloat f))); [intro H; injection H as <-; eauto|].
+    destruct (py_eq (PFloat f) (PFloat (FInf false))); [intro H; injection H as <-; eauto|].
+    destruct (py_eq (PFloat f) (PFloat (FInf true))); intro H; injection H as <-; eauto.
+  - intro H; injection H as <-; eauto.
+Qed.
+
+(* ================================================================== *)
+(** * 1. sanitize succeeds exactly on jsonable values                   *)
+(* ================================================================== *)
+
+Lemma mapM_some_iff : forall l,
+  Forall (fun v => (exists w, sanitize v = Some w) <-> jsonable v = true) l ->
+  (exists ys, mapM sanitize l = Some ys) <-> forallb jsonable l = true.
+Proof.
+  induction 1 as [|x l Hx Hl IH]; cbn [mapM forallb].
+  - split; eauto.
+  - rewrite andb_true_iff, <- Hx, <- IH. split.
+    + intros [ys H]. destruct (sanitize x) as [y|]; [|discriminate].
+      cbn [obind] in H. destruct (mapM sanitize l) as [ys'|]; [|discriminate]. eauto.
+    + intros [[w Hw] [ys Hys]]. rewrite Hw, Hys. cbn [obind]. eauto.
+Qed.
+
+Lemma san_dict_some_iff : forall d,
+  Forall (fun kv => ((exists w, sanitize (fst kv) = Some w) <-> jsonable (fst kv) = true) /\
+                    ((exists w, sanitize (snd kv) = Some w) <-> jsonable (snd kv) = true)) d ->
+  forall acc,
+  (exists w, san_dict d acc = Some w) <->
+  forallb (fun kv => json_key (fst kv) && jsonable (snd kv))%bool d = true.
+Proof.
+  induction 1 as [|[k v] d [_ Hv] Hd IH]; intro acc; cbn [san_dict forallb fst snd].
+  - split; eauto.
+  - cbn [snd] in Hv. rewrite !andb_true_iff, <- Hv, <- key_to_str_some_iff. split.
+    + intros [w H]. destruct (sanitize v) as [v'|]; [|discriminate]. cbn [obind] in H.
+      destruct (key_to_str k) as [k'|]; [|discriminate]. cbn [obind] in H.
+      repeat split; eauto. apply (IH (assoc_set k' v' acc)). eauto.
+    + intros [[[k' Hk] [v' Hv']] Hrest]. rewrite Hv', Hk. cbn [obind].
+      apply IH. assumption.
+Qed.
+
+Theorem sanitize_some_iff : forall v, (exists w, sanitize v = Some w) <-> jsonable v = true.
+Proof.
+  induction v using pyval_ind'; try (cbn; split; eauto; fail).
+  - rewrite sanitize_list_eq. cbn [jsonable]. rewrite <- (mapM_some_iff l H).
+    split; intros [w Hw].
+    + destruct (mapM sanitize l); [eauto|discriminate].
+    + rewrite Hw. cbn. eauto.
+  - rewrite sanitize_tuple_eq. cbn [jsonable]. rewrite <- (mapM_some_iff l H).
+    split; intros [w Hw].
+    + destruct (mapM sanitize l); [eauto|discriminate].
+    + rewrite Hw. cbn. eauto.
+  - rewrite sanitize_dict_eq. cbn [jsonable]. apply san_dict_some_iff. assumption.
+  - cbn. split; [intros [w Hw]; discriminate | discriminate].
+Qed.
+
+(* ================================================================== *)
+(** * assoc_set with a string key                                       *)
+(* ================================================================== *)
+
+Lemma assoc_set_fresh : forall s v acc,
+  allpstr acc = true -> ~ In s (keys acc) ->
+  assoc_set (PStr s) v acc = acc ++ [(PStr s, v)].
+Proof.
+  intros s v acc. induction acc as [|[k' v'] acc IH]; intros Hp Hn; [reflexivity|].
+  cbn [allpstr forallb fst] in Hp. apply andb_true_iff in Hp. destruct Hp as [Hk Hp].
+  destruct k'; try discriminate.
+  cbn [keys map fst key_str In] in Hn. cbn [assoc_set py_eq].
+  destruct (String.eqb s s0) eqn:E.
+  - apply String.eqb_eq in E. subst. tauto.
+  - cbn [app]. rewrite IH; [reflexivity|assumption|tauto].
+Qed.
+
+Lemma assoc_set_keys_mem : forall s v acc x,
+  allpstr acc = true ->
+  In x (keys (assoc_set (PStr s) v acc)) <-> In x (keys acc) \/ x = s.
+Proof.
+  intros s v acc x. induction acc as [|[k' v'] acc IH]; intros Hp.
+  - cbn. intuition.
+  - cbn [allpstr forallb fst] in Hp. apply andb_true_iff in Hp. destruct Hp as [Hk Hp].
+    destruct k'; try discriminate. cbn [assoc_set py_eq].
+    destruct (String.eqb s s0) eqn:E.
+    + apply String.eqb_eq in E. subst. cbn [keys map fst key_str In]. intuition.
+    + cbn [keys map fst key_str In]. fold (keys (assoc_set (PStr s) v acc)).
+      fold (keys acc). rewrite IH by assumption. tauto.
+Qed.
+
+Lemma assoc_set_allpstr : forall s v acc,
+  allpstr acc = true -> allpstr (assoc_set (PStr s) v acc) = true.
+Proof.
+  intros s v acc. induction acc as [|[k' v'] acc IH]; intros Hp; [reflexivity|].
+  cbn [allpstr forallb fst] in Hp. apply andb_true_iff in Hp. destruct Hp as [Hk Hp].
+  cbn [assoc_set]. destruct (py_eq (PStr s) k'); cbn [allpstr forallb fst].
+  - rewrite Hk. exact Hp.
+  - rewrite Hk. apply IH. exact Hp.
+Qed.
+
+Lemma assoc_set_nodup : forall s v acc,
+  allpstr acc = true -> NoDup (keys acc) -> NoDup (keys (assoc_set (PStr s) v acc)).
+Proof.
+  intros s v acc. induction acc as [|[k' v'] acc IH]; intros Hp Hnd.
+  - cbn. constructor; [tauto|constructor].
+  - cbn [allpstr forallb fst] in Hp. apply andb_true_iff in Hp. destruct Hp as [Hk Hp].
+    destruct k'; try discriminate. cbn [assoc_set py_eq].
+    cbn [keys map fst key_str] in Hnd. fold (keys acc) in Hnd.
+    inversion Hnd as [|? ? Hnotin Hnd']; subst.
+    destruct (String.eqb s s0) eqn:E.
+    + cbn [keys map fst key_str]. exact Hnd.
+    + cbn [keys map fst key_str]. fold (keys (assoc_set (PStr s) v acc)).
+      constructor; [|apply IH; assumption].
+      rewrite assoc_set_keys_mem by assumption. intros [H|H]; [tauto|].
+      subst. rewrite String.eqb_refl in E. discriminate.
+Qed.
+
+(* values predicate preserved by assoc_set *)
+Lemma assoc_set_forallb_snd : forall (P : pyval -> bool) k v acc,
+  P v = true -> forallb (fun kv => P (snd kv)) acc = true ->
+  forallb (fun kv => P (snd kv)) (assoc_set k v acc) = true.
+Proof.
+  intros P k v acc Hv. induction acc as [|[k' v'] acc IH]; intro H.
+  - cbn. rewrite Hv. reflexivity.
+  - cbn [forallb snd] in H. apply andb_true_iff in H. destruct H as [H1 H2].
+    cbn [assoc_set]. destruct (py_eq k k'); cbn [forallb snd].
+    + rewrite Hv. exact H2.
+    + rewrite H1. apply IH. exact H2.
+Qed.
+
+(* ================================================================== *)
+(** * 2. the result of sanitize is sanitized                            *)
+(* ================================================================== *)
+
+Lemma mapM_forallb : forall (P : pyval -> bool) l,
+  Forall (fun v => forall w, sanitize v = Some w -> P w = true) l ->
+  forall ys, mapM sanitize l = Some ys -> forallb P ys = true.
+Proof.
+  induction 1 as [|x l Hx Hl IH]; cbn [mapM]; intros ys H.
+  - injection H as <-. reflexivity.
+  - destruct (sanitize x) as [y|] eqn:Ex; [|discriminate]. cbn [obind] in H.
+    destruct (mapM sanitize l) as [ys'|]; [|discriminate]. cbn [obind] in H.
+    injection H as <-. cbn [forallb]. rewrite (Hx y eq_refl), (IH ys' eq_refl). reflexivity.
+Qed.
+
+Definition dict_ok (P : pyval -> bool) (d : list (pyval * pyval)) : Prop :=
+  wfd d /\ forallb (fun kv => P (snd kv)) d = true.
+
+Lemma san_dict_ok : forall (P : pyval -> bool) d,
+  Forall (fun kv => forall w, sanitize (snd kv) = Some w -> P w = true) d ->
+  forall acc w, dict_ok P acc -> san_dict d acc = Some w ->
+  exists d', w = PDict d' /\ dict_ok P d'.
+Proof.
+  induction 1 as [|[k v] d Hv Hd IH]; intros acc w Hacc; cbn [san_dict].
+  - intro H. injection H as <-. eauto.
+  - cbn [snd] in Hv. destruct (sanitize v) as [v'|]; [|discriminate]. cbn [obind].
+    destruct (key_to_str k) as [k'|] eqn:Ek; [|discriminate]. cbn [obind].
+    destruct (key_to_str_pstr _ _ Ek) as [s ->].
+    apply IH. destruct Hacc as [[Hp Hnd] Hv'].
+    repeat split.
+    + apply assoc_set_allpstr; assumption.
+    + apply assoc_set_nodup; assumption.
+    + apply assoc_set_forallb_snd; auto.
+Qed.
+
+Lemma dict_ok_sanitized : forall t d,
+  dict_ok (sanitized_gen t) d -> sanitized_gen t (PDict d) = true.
+Proof.
+  intros t d [[Hp Hnd] Hv]. rewrite sanitized_gen_dict.
+  apply andb_true_iff. split; [|apply str_nodup_NoDup; assumption].
+  unfold allpstr in Hp. rewrite forallb_forall in *. intros x Hx.
+  rewrite (Hp x Hx), (Hv x Hx). reflexivity.
+Qed.
+
+Lemma dict_ok_nil : forall P, dict_ok P [].
+Proof. intro P. repeat split. constructor. Qed.
+
+Theorem sanitize_sanitized : forall v w, sanitize v = Some w -> sanitized w = true.
+Proof.
+  unfold sanitized.
+  induction v using pyval_ind'; intros w Hw;
+    try (cbn in Hw; injection Hw as <-; reflexivity); try discriminate.
+  - rewrite sanitize_list_eq in Hw.
+    destruct (mapM sanitize l) as [ys|] eqn:E; [|discriminate]. injection Hw as <-.
+    rewrite sanitized_gen_list. eapply mapM_forallb; eauto.
+  - rewrite sanitize_tuple_eq in Hw.
+    destruct (mapM sanitize l) as [ys|] eqn:E; [|discriminate]. injection Hw as <-.
+    rewrite sanitized_gen_list. eapply mapM_forallb; eauto.
+  - rewrite sanitize_dict_eq in Hw.
+    destruct (san_dict_ok (sanitized_gen false) d) with (acc := @nil (pyval*pyval)) (w := w)
+      as [d' [-> Hok]]; auto using dict_ok_nil.
+    + eapply Forall_impl; [|exact H]. intros a [_ Ha]. exact Ha.
+    + apply dict_ok_sanitized. assumption.
+Qed.
+
+(* ================================================================== *)
+(** * 3./4. sanitize is the identity on sanitized values                *)
+(* ================================================================== *)
+
+Lemma mapM_fixed : forall (P : pyval -> bool) l,
+  Forall (fun v => P v = true -> sanitize v = Some v) l ->
+  forallb P l = true -> mapM sanitize l = Some l.
+Proof.
+  induction 1 as [|x l Hx Hl IH]; cbn [mapM forallb]; intro H; [reflexivity|].
+  apply andb_true_iff in H. destruct H as [H1 H2].
+  rewrite (Hx H1), (IH H2). reflexivity.
+Qed.
+
+Lemma san_dict_fixed : forall (P : pyval -> bool) d,
+  Forall (fun kv => P (snd kv) = true -> sanitize (snd kv) = Some (snd kv)) d ->
+  forall acc,
+  allpstr (acc ++ d) = true -> NoDup (keys (acc ++ d)) ->
+  forallb (fun kv => P (snd kv)) d = true ->
+  san_dict d acc = Some (PDict (acc ++ d)).
+Proof.
+  induction 1 as [|[k v] d Hv Hd IH]; intros acc Hp Hnd HP; cbn [san_dict].
+  - rewrite app_nil_r. reflexivity.
+  - cbn [forallb snd] in HP, Hv. apply andb_true_iff in HP. destruct HP as [HP1 HP2].
+    rewrite (Hv HP1). cbn [obind].
+    unfold allpstr in Hp. rewrite forallb_app in Hp. apply andb_true_iff in Hp.
+    destruct Hp as [Hpa Hpd]. cbn [forallb fst] in Hpd.
+    apply andb_true_iff in Hpd. destruct Hpd as [Hk Hpd].
+    destruct k; try discriminate. cbn [key_to_str obind].
+    assert (Hn : ~ In s (keys acc)).
+    { unfold keys in Hnd. rewrite map_app in Hnd. cbn [map fst key_str] in Hnd.
+      apply NoDup_remove_2 in Hnd. intro Hin. apply Hnd. apply in_or_app. left. exact Hin. }
+    rewrite assoc_set_fresh by assumption.
+    replace (acc ++ (PStr s, v) :: d) with ((acc ++ [(PStr s, v)]) ++ d)
+      by (rewrite <- app_assoc; reflexivity).
+    apply IH.
+    + unfold allpstr. rewrite !forallb_app. cbn [forallb fst is_pstr].
+      rewrite Hpa, Hpd. reflexivity.
+    + rewrite <- app_assoc. exact Hnd.
+    + exact HP2.
+Qed.
+
+Theorem sanitize_fixed : forall w, sanitized w = true -> sanitize w = Some w.
+Proof.
+  unfold sanitized.
+  induction w using pyval_ind'; intro Hs; try reflexivity; try discriminate.
+  - rewrite sanitize_list_eq. rewrite sanitized_gen_list in Hs.
+    rewrite (mapM_fixed (sanitized_gen false) l H Hs). reflexivity.
+  - apply sanitized_gen_dict_wfd in Hs. destruct Hs as [[Hp Hnd] Hv].
+    rewrite sanitize_dict_eq.
+    apply (san_dict_fixed (sanitized_gen false) d) with (acc := []); auto.
+    eapply Forall_impl; [|exact H]. intros a [_ Ha]. exact Ha.
+Qed.
+
+Theorem sanitize_idem : forall v w, sanitize v = Some w -> sanitize w = Some w.
+Proof. intros v w H. apply sanitize_fixed. eapply sanitize_sanitized. eassumption. Qed.
+
+(* ================================================================== *)
+(** * 5. sanitize preserves float well-formedness                       *)
+(* ================================================================== *)
+
+Lemma pv_wf_dict_ok : forall d, dict_ok pv_wf d -> pv_wf (PDict d) = true.
+Proof.
+  intros d [[Hp _] Hv]. rewrite pv_wf_dict. unfold allpstr in Hp.
+  rewrite forallb_forall in *. intros [k v] Hx.
+  specialize (Hp _ Hx). specialize (Hv _ Hx). cbn [fst snd] in *.
+  destruct k; try discriminate. cbn [pv_wf]. exact Hv.
+Qed.
+
+Theorem sanitize_wf : forall v w, pv_wf v = true -> sanitize v = Some w -> pv_wf w = true.
+Proof.
+  induction v using pyval_ind'; intros w Hwf Hw;
+    try (cbn in Hw; injection Hw as <-; exact Hwf); try discriminate.
+  - rewrite sanitize_list_eq in Hw. rewrite pv_wf_list in Hwf.
+    destruct (mapM sanitize l) as [ys|] eqn:E; [|discriminate]. injection Hw as <-.
+    rewrite pv_wf_list. eapply mapM_forallb; [|exact E].
+    rewrite forallb_forall in Hwf. rewrite Forall_forall in *.
+    intros x Hx w Hw. eapply H; eauto.
+  - rewrite sanitize_tuple_eq in Hw. rewrite pv_wf_tuple in Hwf.
+    destruct (mapM sanitize l) as [ys|] eqn:E; [|discriminate]. injection Hw as <-.
+    rewrite pv_wf_list. eapply mapM_forallb; [|exact E].
+    rewrite forallb_forall in Hwf. rewrite Forall_forall in *.
+    intros x Hx w Hw. eapply H; eauto.
+  - rewrite sanitize_dict_eq in Hw. rewrite pv_wf_dict in Hwf.
+    destruct (san_dict_ok pv_wf d) with (acc := @nil (pyval*pyval)) (w := w)
+      as [d' [-> Hok]]; auto using dict_ok_nil.
+    + rewrite forallb_forall in Hwf. rewrite Forall_forall in *.
+      intros x Hx w' Hw'. specialize (Hwf x Hx). apply andb_true_iff in Hwf.
+      destruct (H x Hx) as [_ Hsnd]. apply Hsnd; tauto.
+    + apply pv_wf_dict_ok. assumption.
+Qed.
+
+(* ================================================================== *)
+(** * 9.-11. kind discipline of is_equal                                *)
+(* ================================================================== *)
+
+Theorem is_equal_bool_num : forall b z f,
+  is_equal (PBool b) (PInt z) = false /\ is_equal (PInt z) (PBool b) = false /\
+  is_equal (PBool b) (PFloat f) = false /\ is_equal (PFloat f) (PBool b) = false.
+Proof. intros. repeat split; reflexivity. Qed.
+
+Theorem is_equal_int_float : forall z f,
+  is_equal (PInt z) (PFloat f) = int_fl_eqb z f /\ is_equal (PFloat f) (PInt z) = int_fl_eqb z f.
+Proof. intros. split; reflexivity. Qed.
+
+Theorem is_equal_list_tuple : forall l v,
+  is_equal (PTuple l) v = is_equal (PList l) v /\ is_equal v (PTuple l) = is_equal v (PList l).
+Proof.
+  intros l v. split.
+  - reflexivity.
+  - destruct v; reflexivity.
+Qed.
+
+(* ================================================================== *)
+(** * all2 / deq: generic order-theoretic facts                         *)
+(* ================================================================== *)
+
+Lemma all2_refl_in : forall (E : pyval -> pyval -> bool) l,
+  (forall x, In x l -> E x x = true) -> all2 E l l = true.
+Proof.
+  induction l as [|x l IH]; intro H; [reflexivity|].
+  cbn [all2]. rewrite H by (left; reflexivity). apply IH.
+  intros; apply H; right; assumption.
+Qed.
+
+Lemma all2_flip_in : forall (E1 E2 : pyval -> pyval -> bool) l1 l2,
+  (forall x y, In x l1 -> In y l2 -> E1 x y = E2 y x) -> all2 E1 l1 l2 = all2 E2 l2 l1.
+Proof.
+  induction l1 as [|x l1 IH]; destruct l2 as [|y l2]; intro H; try reflexivity.
+  cbn [all2]. rewrite H by (left; reflexivity). rewrite IH; [reflexivity|].
+  intros; apply H; right; assumption.
+Qed.
+
+Lemma all2_ext_in : forall (E1 E2 : pyval -> pyval -> bool) l1 l2,
+  (forall x y, In x l1 -> In y l2 -> E1 x y = E2 x y) -> all2 E1 l1 l2 = all2 E2 l1 l2.
+Proof.
+  induction l1 as [|x l1 IH]; destruct l2 as [|y l2]; intro H; try reflexivity.
+  cbn [all2]. rewrite H by (left; reflexivity). rewrite IH; [reflexivity|].
+  intros; apply H; right; assumption.
+Qed.
+
+Lemma all2_trans_in : forall (E : pyval -> pyval -> bool) l1 l2 l3,
+  (forall x y z, In x l1 -> In y l2 -> In z l3 ->
+                 E x y = true -> E y z = true -> E x z = true) ->
+  all2 E l1 l2 = true -> all2 E l2 l3 = true -> all2 E l1 l3 = true.
+Proof.
+  induction l1 as [|x l1 IH]; destruct l2 as [|y l2]; destruct l3 as [|z l3];
+    intros H H12 H23; try discriminate; try reflexivity.
+  cbn [all2] in *. apply andb_true_iff in H12. apply andb_true_iff in H23.
+  destruct H12 as [A1 A2]. destruct H23 as [B1 B2]. apply andb_true_iff. split.
+  - apply (H x y z); auto; left; reflexivity.
+  - apply (IH l2 l3); auto. intros x' y' z' ? ? ?. apply H; right; assumption.
+Qed.
+
+Lemma deq_true_iff : forall E d1 d2,
+  deq E d1 d2 = true <->
+  List.length d1 = List.length d2 /\
+  forall k v, In (k, v) d1 -> exists v', assoc_get k d2 = Some v' /\ E v v' = true.
+Proof.
+  intros. unfold deq. rewrite andb_true_iff, Nat.eqb_eq, forallb_forall.
+  split; intros [H1 H2]; split; auto.
+  - intros k v Hin. specialize (H2 _ Hin). cbn [fst snd] in H2.
+    destruct (assoc_get k d2); [eauto|discriminate].
+  - intros [k v] Hin. destruct (H2 _ _ Hin) as [v' [Hg He]]. cbn [fst snd].
+    rewrite Hg. exact He.
+Qed.
+
+Lemma keys_length : forall d, List.length (keys d) = List.length d.
+Proof. intro d. unfold keys. apply map_length. Qed.
+
+Lemma deq_keys_incl : forall E d1 d2,
+  allpstr d1 = true -> deq E d1 d2 = true -> incl (keys d1) (keys d2).
+Proof.
+  intros E d1 d2 Hp H s Hs. apply deq_true_iff in H. destruct H as [_ H].
+  destruct (keys_In _ _ Hp Hs) as [v Hin]. destruct (H _ _ Hin) as [v' [Hg _]].
+  eapply In_keys. eapply assoc_get_Some_In. exact Hg.
+Qed.
+
+Lemma deq_keys_incl_rev : forall E d1 d2,
+  wfd d1 -> deq E d1 d2 = true -> incl (keys d2) (keys d1).
+Proof.
+  intros E d1 d2 [Hp Hnd] H.
+  apply NoDup_length_incl; [assumption | | eapply deq_keys_incl; eauto].
+  rewrite !keys_length. apply deq_true_iff in H. destruct H as [H _]. rewrite H. apply le_n.
+Qed.
+
+Lemma deq_flip : forall E1 E2 d1 d2, wfd d1 -> wfd d2 ->
+  (forall k v k' v', In (k, v) d1 -> In (k', v') d2 -> E1 v v' = E2 v' v) ->
+  deq E1 d1 d2 = true -> deq E2 d2 d1 = true.
+Proof.
+  intros E1 E2 d1 d2 W1 W2 HE H.
+  pose proof (deq_keys_incl_rev _ _ _ W1 H) as Hincl.
+  destruct W1 as [Hp1 Hn1]. destruct W2 as [Hp2 Hn2].
+  apply deq_true_iff in H. destruct H as [Hlen H].
+  apply deq_true_iff. split; [symmetry; exact Hlen|].
+  intros k' v' Hin'.
+  destruct (allpstr_In _ _ _ Hp2 Hin') as [s ->].
+  assert (Hs : In s (keys d1)) by (apply Hincl; eapply In_keys; eauto).
+  destruct (keys_In _ _ Hp1 Hs) as [v Hin].
+  exists v. split; [apply assoc_get_In_nodup; assumption|].
+  destruct (H _ _ Hin) as [v'' [Hg He]].
+  rewrite (assoc_get_In_nodup _ _ _ Hp2 Hn2 Hin') in Hg. injection Hg as <-.
+  rewrite <- (HE _ _ _ _ Hin Hin'). exact He.
+Qed.
+
+Lemma deq_sym_eq : forall E1 E2 d1 d2, wfd d1 -> wfd d2 ->
+  (forall k v k' v', In (k, v) d1 -> In (k', v') d2 -> E1 v v' = E2 v' v) ->
+  deq E1 d1 d2 = deq E2 d2 d1.
+Proof.
+  intros E1 E2 d1 d2 W1 W2 HE. apply Bool.eq_iff_eq_true. split; intro H.
+  - exact (deq_flip E1 E2 d1 d2 W1 W2 HE H).
+  - apply (deq_flip E2 E1 d2 d1 W2 W1); [|exact H].
+    intros k v k' v' Hin Hin'. symmetry. exact (HE _ _ _ _ Hin' Hin).
+Qed.
+
+Lemma deq_refl_in : forall E d, wfd d ->
+  (forall k v, In (k, v) d -> E v v = true) -> deq E d d = true.
+Proof.
+  intros E d [Hp Hnd] H. apply deq_true_iff. split; [reflexivity|].
+  intros k v Hin. exists v. split; [|eauto].
+  destruct (allpstr_In _ _ _ Hp Hin) as [s ->]. apply assoc_get_In_nodup; assumption.
+Qed.
+
+Lemma deq_trans_in : forall E d1 d2 d3, allpstr d1 = true ->
+  (forall k v k' v' k'' v'', In (k, v) d1 -> In (k', v') d2 -> In (k'', v'') d3 ->
+     E v v' = true -> E v' v'' = true -> E v v'' = true) ->
+  deq E d1 d2 = true -> deq E d2 d3 = true -> deq E d1 d3 = true.
+Proof.
+  intros E d1 d2 d3 Hp HE H12 H23.
+  apply deq_true_iff in H12. apply deq_true_iff in H23. apply deq_true_iff.
+  destruct H12 as [L12 H12]. destruct H23 as [L23 H23]. split; [congruence|].
+  intros k v Hin. destruct (allpstr_In _ _ _ Hp Hin) as [s ->].
+  destruct (H12 _ _ Hin) as [v' [Hg' He']].
+  pose proof (assoc_get_Some_In _ _ _ Hg') as Hin'.
+  destruct (H23 _ _ Hin') as [v'' [Hg'' He'']].
+  pose proof (assoc_get_Some_In _ _ _ Hg'') as Hin''.
+  exists v''. split; [assumption|]. eapply HE; eauto.
+Qed.
+
+Lemma forallb_snd_In : forall (P : pyval -> bool) (d : list (pyval * pyval)) k v,
+  forallb (fun kv => P (snd kv)) d = true -> In (k, v) d -> P v = true.
+Proof.
+  intros P d k v H Hin. rewrite forallb_forall in H. exact (H _ Hin).
+Qed.
+
+(* ================================================================== *)
+(** * Numbers                                                           *)
+(* ================================================================== *)
+
+Lemma bool_eqb_sym : forall a b, Bool.eqb a b = Bool.eqb b a.
+Proof. destruct a, b; reflexivity. Qed.
+
+Lemma fl_eqb_refl : forall f, fl_eqb f f = true.
+Proof.
+  destruct f; cbn [fl_eqb]; [reflexivity | apply eqb_reflx |].
+  rewrite eqb_reflx, Pos.eqb_refl, Z.eqb_refl. reflexivity.
+Qed.
+
+Lemma fl_eqb_sym : forall a b, fl_eqb a b = fl_eqb b a.
+Proof.
+  destruct a, b; cbn [fl_eqb]; try reflexivity.
+  - apply bool_eqb_sym.
+  - rewrite (bool_eqb_sym neg), (Pos.eqb_sym m), (Z.eqb_sym e). reflexivity.
+Qed.
+
+Lemma fl_eqb_fin : forall n m e f, fl_eqb (FFin n m e) f = true -> f = FFin n m e.
+Proof.
+  intros n m e f. destruct f; cbn [fl_eqb]; try discriminate.
+  rewrite !andb_true_iff, Pos.eqb_eq, Z.eqb_eq. intros [[H1 H2] H3].
+  apply eqb_prop in H1. subst. reflexivity.
+Qed.
+
+Lemma fl_eqb_trans : forall a b c, fl_eqb a b = true -> fl_eqb b c = true -> fl_eqb a c = true.
+Proof.
+  intros a b c Hab Hbc. destruct a.
+  - destruct b; try discriminate. destruct c; try discriminate. reflexivity.
+  - destruct b; try discriminate. destruct c; try discriminate. cbn [fl_eqb] in *.
+    apply eqb_prop in Hab. subst. exact Hbc.
+  - apply fl_eqb_fin in Hab. subst. exact Hbc.
+Qed.
+
+Lemma int_fl_eqb_inj : forall z1 z2 f,
+  int_fl_eqb z1 f = true -> int_fl_eqb z2 f = true -> z1 = z2.
+Proof.
+  intros z1 z2 f. destruct f; cbn [int_fl_eqb]; try discriminate.
+  - rewrite !Z.eqb_eq. congruence.
+  - rewrite !andb_true_iff, !Z.eqb_eq. intros [_ H1] [_ H2]. congruence.
+Qed.
+
+Lemma int_fl_eqb_fl_eqb : forall z f1 f2,
+  fl_eqb f1 f2 = true -> int_fl_eqb z f1 = int_fl_eqb z f2.
+Proof.
+  intros z f1 f2 H. destruct f1.
+  - destruct f2; try discriminate. reflexivity.
+  - destruct f2; try discriminate. reflexivity.
+  - apply fl_eqb_fin in H. subst. reflexivity.
+Qed.
+
+Lemma pos_odd_not_twice : forall m x, fl_wf (FFin false m 0) = true -> Z.pos m <> (2 * x)%Z.
+Proof.
+  intros m x H. destruct m; cbn [fl_wf] in H; try discriminate.
+  - rewrite Pos2Z.inj_xI. lia.
+  - lia.
+Qed.
+
+Lemma odd_pow2_unique_le : forall m1 m2 e1 e2,
+  fl_wf (FFin false m1 0) = true ->
+  (0 <= e1)%Z -> (e1 <= e2)%Z ->
+  (Z.pos m1 * 2 ^ e1 = Z.pos m2 * 2 ^ e2)%Z -> e1 = e2 /\ m1 = m2.
+Proof.
+  intros m1 m2 e1 e2 Hodd H0 Hle Heq.
+  assert (Hd : exists d, (0 <= d)%Z /\ e2 = (e1 + d)%Z).
+  { exists (e2 - e1)%Z. split; lia. }
+  destruct Hd as [d [Hd ->]].
+  rewrite Z.pow_add_r in Heq by assumption.
+  replace (Z.pos m2 * (2 ^ e1 * 2 ^ d))%Z with ((Z.pos m2 * 2 ^ d) * 2 ^ e1)%Z in Heq by ring.
+  apply Z.mul_reg_r in Heq; [|apply Z.pow_nonzero; lia].
+  destruct (Z.eq_dec d 0) as [->|Hnz].
+  - rewrite Z.pow_0_r, Z.mul_1_r in Heq. injection Heq as ->. split; [lia|reflexivity].
+  - exfalso. replace d with (Z.succ (d - 1)) in Heq by lia.
+    rewrite Z.pow_succ_r in Heq by lia.
+    replace (Z.pos m2 * (2 * 2 ^ (d - 1)))%Z with (2 * (Z.pos m2 * 2 ^ (d - 1)))%Z in Heq by ring.
+    exact (pos_odd_not_twice _ _ Hodd Heq).
+Qed.
+
+Lemma fl_wf_odd : forall n m e, fl_wf (FFin n m e) = true -> fl_wf (FFin false m 0) = true.
+Proof. intros n m e H. exact H. Qed.
+
+Lemma int_fl_eqb_fl_unique : forall z f1 f2,
+  fl_wf f1 = true -> fl_wf f2 = true ->
+  int_fl_eqb z f1 = true -> int_fl_eqb z f2 = true -> fl_eqb f1 f2 = true.
+Proof.
+  intros z f1 f2 W1 W2 H1 H2.
+  destruct f1 as [n1|n1|n1 m1 e1]; destruct f2 as [n2|n2|n2 m2 e2];
+    cbn [int_fl_eqb] in H1, H2; try discriminate; try reflexivity.
+  - (* zero vs finite *)
+    apply Z.eqb_eq in H1. apply andb_true_iff in H2. destruct H2 as [He H2].
+    apply Z.leb_le in He. apply Z.eqb_eq in H2. exfalso. rewrite H1 in H2.
+    assert (0 < 2 ^ e2)%Z by (apply Z.pow_pos_nonneg; lia).
+    assert (0 < Z.pos m2 * 2 ^ e2)%Z by (apply Z.mul_pos_pos; lia).
+    rewrite <- Z.mul_assoc in H2. destruct n2; lia.
+  - apply Z.eqb_eq in H2. apply andb_true_iff in H1. destruct H1 as [He H1].
+    apply Z.leb_le in He. apply Z.eqb_eq in H1. exfalso. rewrite H2 in H1.
+    assert (0 < 2 ^ e1)%Z by (apply Z.pow_pos_nonneg; lia).
+    assert (0 < Z.pos m1 * 2 ^ e1)%Z by (apply Z.mul_pos_pos; lia).
+    rewrite <- Z.mul_assoc in H1. destruct n1; lia.
+  - apply andb_true_iff in H1. destruct H1 as [He1 H1].
+    apply andb_true_iff in H2. destruct H2 as [He2 H2].
+    apply Z.leb_le in He1. apply Z.leb_le in He2.
+    apply Z.eqb_eq in H1. apply Z.eqb_eq in H2.
+    assert (P1 : (0 < Z.pos m1 * 2 ^ e1)%Z).
+    { apply Z.mul_pos_pos; [lia|]. apply Z.pow_pos_nonneg; lia. }
+    assert (P2 : (0 < Z.pos m2 * 2 ^ e2)%Z).
+    { apply Z.mul_pos_pos; [lia|]. apply Z.pow_pos_nonneg; lia. }
+    rewrite <- Z.mul_assoc in H1. rewrite <- Z.mul_assoc in H2.
+    assert (Hn : n1 = n2) by (destruct n1, n2; try reflexivity; exfalso; lia).
+    subst n2.
+    assert (Hm : (Z.pos m1 * 2 ^ e1 = Z.pos m2 * 2 ^ e2)%Z) by (destruct n1; lia).
+    assert (He : e1 = e2 /\ m1 = m2).
+    { destruct (Z.le_ge_cases e1 e2) as [Hle|Hle].
+      - apply odd_pow2_unique_le; auto.
+      - symmetry in Hm.
+        destruct (odd_pow2_unique_le m2 m1 e2 e1 (fl_wf_odd _ _ _ W2) He2 Hle Hm) as [E1 E2].
+        split; congruence. }
+    destruct He as [-> ->]. cbn [fl_eqb].
+    rewrite eqb_reflx, Pos.eqb_refl, Z.eqb_refl. reflexivity.
+Qed.
+
+(* ================================================================== *)
+(** * 6. reflexivity                                                    *)
+(* ================================================================== *)
+
+Theorem is_equal_refl : forall a, sanitized_t a = true -> is_equal a a = true.
+Proof.
+  unfold sanitized_t.
+  induction a using pyval_ind'; intro Hs; try reflexivity; try discriminate.
+  - cbn. apply eqb_reflx.
+  - cbn. apply Z.eqb_refl.
+  - cbn. apply fl_eqb_refl.
+  - cbn. apply String.eqb_refl.
+  - rewrite is_equal_list_eq. cbn [seq_eqn]. rewrite sanitized_gen_list in Hs.
+    apply all2_refl_in. rewrite Forall_forall in H. rewrite forallb_forall in Hs.
+    intros x Hx. apply H; auto.
+  - rewrite is_equal_tuple_eq. cbn [seq_eqn]. rewrite sanitized_gen_tuple in Hs.
+    cbn [andb] in Hs.
+    apply all2_refl_in. rewrite Forall_forall in H. rewrite forallb_forall in Hs.
+    intros x Hx. apply H; auto.
+  - rewrite is_equal_dict_eq. cbn [dict_eqn].
+    apply sanitized_gen_dict_wfd in Hs. destruct Hs as [W Hv].
+    apply deq_refl_in; [assumption|]. intros k v Hin.
+    rewrite Forall_forall in H. destruct (H _ Hin) as [_ Hsnd]. apply Hsnd.
+    eapply forallb_snd_In in Hv; eauto.
+Qed.
